@@ -29,7 +29,7 @@ type CaseC06 struct {
 func init() { register("C06", checkC06) }
 
 var jsAlphabet = []string{"a", "<", ">", "&", "\\", "\"", "\\u003c", "\\u003e", "\\u0026", " ", "\x01", "\n", "\t", "é", "世", "/", "u003c", "{", "}", " ", "\\\\", "\\\"", "\x7f", "]", "[", "\\u0008", "\\u000c", "\\u000a", "\\u001f", "\\u2028", "\\u0022", "\\b", "\\f", "\\n", "\\u005c", "\b", "\f",
-	"\U0001F600", "e\u0301", "\u2028", "\u2029", "\ufeff", "\\ud83d\\ude00", "\\ud800", "\ufffd"}
+	"\U0001F600", "e\u0301", "\u2028", "\u2029", "\ufeff", "\\ud83d\\ude00", "\\ud800", "\ufffd", "%", "%d", "%%", "%s", "100%"}
 
 func genJStr(t *rapid.T, label string) string {
 	n := rapid.IntRange(0, 6).Draw(t, label+"n")
